@@ -5,7 +5,6 @@ import (
 	"io"
 	"rare/pkg/multiterm/termstate"
 	"strings"
-	"unicode/utf8"
 )
 
 const (
@@ -168,12 +167,9 @@ func HighlightSingleRune(word string, runeIndex int, base, highlight ColorCode) 
 	return Wrap(base, word)
 }
 
-// StrLen ignoring any color codes. If color disabled, returns len(s)
+// StrLen ignoring any color codes (also when color is disabled: the text
+// itself may carry codes, and the terminal does not show them either)
 func StrLen(s string) (ret int) {
-	if !Enabled {
-		return utf8.RuneCountInString(s)
-	}
-
 	inCode := false
 	for _, r := range s {
 		if r == escapeRune {
